@@ -55,7 +55,9 @@ func genOps(t *rapid.T, n int, label string) []Op {
 		switch {
 		case k <= 4:
 			s := world.GenSpec(t, fmt.Sprintf("%ss%d", label, i))
-			ops = append(ops, Op{Kind: "add", Spec: &s})
+			// one fresh submission in eight carries a copy of the root whose signature bits were altered: it must
+			// either be refused or be stored as submitted
+			ops = append(ops, Op{Kind: "add", Spec: &s, Flip: rapid.IntRange(0, 7).Draw(t, "altroot") == 0})
 		case k == 5:
 			ops = append(ops, Op{Kind: "dup", A: rapid.IntRange(0, 30).Draw(t, "a"), Flip: rapid.Bool().Draw(t, "flip")})
 		case k <= 8:
@@ -200,6 +202,16 @@ func (r *run) exec(ctx context.Context, op Op, concurrent bool) {
 			}
 			r.class("duplicate-submission")
 		}
+		altered := false
+		if op.Kind == "add" && op.Flip {
+			// the complete chain, its last certificate (the root) with one signature bit flipped
+			chain = append([][]byte{}, b.Full...)
+			root := append([]byte(nil), chain[len(chain)-1]...)
+			root[len(root)-3] ^= 0x10
+			chain[len(chain)-1] = root
+			altered = true
+			r.class("altered-root-copy-submitted")
+		}
 		r.clock.Add(time.Millisecond)
 		var sct *ct.SignedCertificateTimestamp
 		var err error
@@ -209,12 +221,18 @@ func (r *run) exec(ctx context.Context, op Op, concurrent bool) {
 			sct, err = r.lc.AddChain(ctx, asn1Chain(chain))
 		}
 		if err != nil {
+			if altered {
+				return // refusing a chain that holds a certificate nobody issued in that form is fine
+			}
 			r.failf("valid-chain-refused", "submission refused: %v", err)
 			return
 		}
 		r.mu.Lock()
-		r.issued = append(r.issued, issued{b, sct, asn1Chain(b.Full)})
+		r.issued = append(r.issued, issued{b, sct, asn1Chain(chain)})
 		r.mu.Unlock()
+		if altered {
+			r.class("altered-root-copy-admitted")
+		}
 	case "seq":
 		r.mu.Lock()
 		r.seqNs += 1234567
@@ -497,9 +515,12 @@ func (r *run) finalChecks(ctx context.Context) {
 			continue
 		}
 		le, err := ct.LogEntryFromLeaf(idx, &ents.Entries[0])
-		if err != nil {
+		if le == nil || x509.IsFatal(err) {
 			r.failf("decode-submitted", "entry %d does not decode: %v", idx, err)
 			continue
+		}
+		if err != nil {
+			r.class("decoded-with-nonfatal-error")
 		}
 		var gotCert []byte
 		if is.built.Spec.Precert {
@@ -521,12 +542,18 @@ func (r *run) finalChecks(ctx context.Context) {
 		if le.Leaf.TimestampedEntry.Timestamp != is.sct.Timestamp {
 			r.failf("decode-timestamp", "entry %d carries timestamp %d, SCT says %d", idx, le.Leaf.TimestampedEntry.Timestamp, is.sct.Timestamp)
 		}
+		// the stored chain is the validated path: the submitted certificates unchanged and in order, plus the
+		// root when it was omitted
 		if len(le.Chain) != len(is.built.Full)-1 {
 			r.failf("decode-chain", "entry %d: chain of %d, want %d", idx, len(le.Chain), len(is.built.Full)-1)
 		} else {
 			for j := range le.Chain {
-				if !bytes.Equal(le.Chain[j].Data, is.built.Full[j+1]) {
-					r.failf("decode-chain", "entry %d: chain element %d differs", idx, j)
+				want := is.built.Full[j+1]
+				if j+1 < len(is.chain) {
+					want = is.chain[j+1].Data // what was actually submitted at that position
+				}
+				if !bytes.Equal(le.Chain[j].Data, want) {
+					r.failf("decode-chain", "entry %d: stored chain element %d differs from the submitted certificate", idx, j)
 				}
 			}
 		}
